@@ -295,12 +295,14 @@ def separate_procs(sel, seed, project_display, proc_internals, hide_undoc):
     w = W()
     L.append(f"!! {w} see [[spriv{S}]] and [[sptyp{S}]] and [[sppub{S}]]")
     ent(f"file:sp/module:{mod}", [w], "show", "module", f"module/{mod}.html", None)
-    L += ["implicit none", f"private :: spriv{S}, sptyp{S}"]
+    L += ["implicit none", f"private :: spriv{S}, sptyp{S}, spriv_impl{S}"]
     w = W()
     L += [f"type :: sptyp{S}", f"!! {w}", "integer :: c", f"end type sptyp{S}"]
     ent(f"file:sp/module:{mod}/type:sptyp{S}", [w], "show" if "private" in D else "hide", "type", f"type/sptyp{S}.html" if "private" in D else None, f"module/{mod}.html")
     w, wc = W(), W()
-    L += [f"type :: spct{S}", f"!! {w}", "integer :: v", f"end type spct{S}", f"interface spct{S}", f"!! {wc}", f"module procedure spnew{S}", "end interface", f"private :: spnew{S}"]
+    wb = W()
+    # (a binding whose comment names its private implementation: a link only if that procedure has a page)
+    L += [f"type :: spct{S}", f"!! {w}", "integer :: v", "contains", f"procedure :: sprun => spriv_impl{S}", f"!! {wb} see [[spriv_impl{S}]] and [[spct{S}:sprun]]", f"end type spct{S}", f"interface spct{S}", f"!! {wc}", f"module procedure spnew{S}", "end interface", f"private :: spnew{S}"]
     ent(f"file:sp/module:{mod}/type:spct{S}", [w], "show" if "public" in D else "hide", "type", f"type/spct{S}.html" if "public" in D else None, f"module/{mod}.html")
     ent(f"file:sp/module:{mod}/interface:spct{S}", [wc], "either", "interface", None, f"module/{mod}.html")
     L.append("interface")
@@ -324,6 +326,10 @@ def separate_procs(sel, seed, project_display, proc_internals, hide_undoc):
         ent(f"file:sp/submodule:{sub}/mpimpl:{nm}/proc:inner_{nm}", [wn], "either" if internals_may_show else "hide", "proc_internal")
     L.append("end interface")
     L.append("contains")
+    w = W()
+    L += [f"subroutine spriv_impl{S}(self)", f"!! {w}", f"class(spct{S}), intent(in) :: self", f"end subroutine spriv_impl{S}"]
+    ent(f"file:sp/module:{mod}/proc:spriv_impl{S}", [w], "show" if "private" in D else "either", "proc", f"proc/spriv_impl{S}.html" if "private" in D else None, f"module/{mod}.html")
+    ent(f"file:sp/module:{mod}/type:spct{S}/binding:sprun", [wb], "show" if "public" in D else "hide", "binding", None, f"type/spct{S}.html" if "public" in D else f"module/{mod}.html")
     w = W()
     L += [f"subroutine spriv{S}()", f"!! {w}", f"end subroutine spriv{S}"]
     ent(f"file:sp/module:{mod}/proc:spriv{S}", [w], "show" if "private" in D else "hide", "proc", f"proc/spriv{S}.html" if "private" in D else None, f"module/{mod}.html")
